@@ -57,6 +57,7 @@ const (
 	fPanicReverseIdx  = "C05-panic-cursor-after-reverse-lookup"
 	fGenCatRanges     = "C05-general-category-first-last-ranges"
 	fMarkBaseCache    = "C05-mark-base-cache-not-reset"
+	fOldUyghur        = "C05-old-uyghur-direction"
 )
 
 // unconditional (skew / loader / unspecified) classes
@@ -66,6 +67,8 @@ const (
 	sOpBudget       = "unspecified:operation-budget-exhausted"
 	sAATRanges      = "skew:aat-feature-ranges"
 	sPairClass0     = "skew:pairpos2-second-class-zero"
+	sMarkBaseMask   = "skew:markbase-search-past-masked-glyph"
+	sTifinaghRTL    = "skew:tifinagh-direction-neutral"
 	lBitmapOnly     = "loader:bitmap-only-extents"
 )
 
@@ -335,7 +338,14 @@ func knownPanic(fe *fontEntry, c *Case, err error) string {
 	return ""
 }
 
-func triageGuess(fe *fontEntry, c *Case, got portResult, want refResult) string { return "" }
+func triageGuess(fe *fontEntry, c *Case, got portResult, want refResult) string {
+	// finding: getHorizontalDirection does not list Old Uyghur (Unicode 14) among the
+	// right-to-left scripts; upstream does.
+	if c.Dir == 0 && got.Script == language.Old_Uyghur && uint32(got.Script) == want.Script && ev.Known(fOldUyghur) {
+		return fOldUyghur
+	}
+	return ""
+}
 
 // fontLevel: classes where the whole shaping input differs between the two sides because of the
 // loader; nothing of the output can be compared.
@@ -343,9 +353,12 @@ func fontLevel(fe *fontEntry, got portResult) class {
 	f := facts(fe)
 	switch {
 	case f.layoutDropped && ev.Known(fPairPos2):
-		// finding: PairPos format 2 is rejected when classDef.Extent() != class1Count although an
-		// unused trailing class is legal; the error discards the *whole* GPOS table
-		// (Amiri-Regular: 75 lookups in the reference, 0 in the port).
+		// finding: a too strict Sanitize of one subtable discards the *whole* GPOS table: PairPos
+		// format 2 with classDef.Extent() < class1Count (an unused trailing class is legal;
+		// Amiri-Regular: 75 lookups in the reference, 0 in the port) and, since the resolved
+		// extension subtables are sanitized too, SinglePos format 2 with fewer value records than
+		// covered glyphs (NotoSansCJKjp-VF.otf: 13 lookups vs 0). Matcher: the port's lookup
+		// count differs from the reference's.
 		return class{fPairPos2, true}
 	case f.cmapZeroFound && ev.Known(fCmapZero):
 		// finding: cmap formats 0, 4 (delta), 6, 10, 12, 13 report a mapping to glyph 0 as found;
@@ -374,9 +387,10 @@ func triage(fe *fontEntry, c *Case, got portResult, want refResult) class {
 	// unspecified: a runaway (AAT insertion loop, recursive lookups) stops when the operation /
 	// length budget is exhausted; where exactly is not specified (upstream expects "*" for such
 	// inputs, e.g. MORX-34: the port stops near 16384 glyphs, libharfbuzz 6.0.0 near 2000).
-	// Precondition: an output of at least 16384 glyphs, or on a morx font more than 32 glyphs per
-	// input rune (+256).
-	if n := 32*c.Length + 256; len(port) >= 16384 || len(ref) >= 16384 || fe.traits.Morx && (len(port) > n || len(ref) > n) {
+	// The two budgets are not computed alike (the port stops near 16384 glyphs, libharfbuzz 6.0.0
+	// near 2000 on MORX-34; GSUB-3 "lol" differs in the last glyphs). Precondition: an output of
+	// more than 32 glyphs per input rune (+256).
+	if n := 32*c.Length + 256; len(port) > n || len(ref) > n {
 		return class{sOpBudget, true}
 	}
 	// skew: Arabic fallback shaping synthesised from the cmap (script Arab, no Arabic GSUB
@@ -393,6 +407,14 @@ func triage(fe *fontEntry, c *Case, got portResult, want refResult) class {
 	// pre-base reordering around the unassigned character); libharfbuzz 6.0.0 classes them O.
 	// Precondition: USE script and an unassigned code point in the item. Weaker predicate: the
 	// same multiset of glyph ids once dotted circles are removed.
+	// skew: the port (like the upstream it tracks) lists Tifinagh with the scripts that have no
+	// native horizontal direction (Old Hungarian, Old Italic, Runic: harfbuzz issue 1000), so a
+	// right-to-left Tifinagh run is not reversed by grapheme; for libharfbuzz 6.0.0 Tifinagh is
+	// natively left-to-right. Visible in the order of a mark and its base
+	// (toys/Sbix1.ttf, RTL, U+2D4B U+0651). Precondition: script Tifinagh, direction RTL.
+	if got.Script == language.Tifinagh && got.Dir == harfbuzz.RightToLeft {
+		return class{sTifinaghRTL, true}
+	}
 	ranged := false
 	for _, ft := range c.Features {
 		if ft.Start != 0 || ft.End >= 0 {
@@ -517,7 +539,7 @@ func triage(fe *fontEntry, c *Case, got portResult, want refResult) class {
 	// all. Estedad-VF.ttf, direction LTR, U+0639 U+0628 U+0651: the shadda is attached
 	// (407,-500) by the reference only. Precondition: GPOS has MarkBasePos/MarkLigPos lookups;
 	// only the offsets of GDEF mark glyphs differ.
-	if f.markAttach && fe.face.GDEF.GlyphClassDef != nil && sameOn(port, ref, fID|fCluster|fAdvance) && ev.Known(fMarkBaseCache) {
+	if f.markAttach && fe.face.GDEF.GlyphClassDef != nil && sameOn(port, ref, fID|fCluster|fAdvance) && (ranged || ev.Known(fMarkBaseCache)) {
 		onlyMarks := true
 		for i := range port {
 			if port[i].XOff != ref[i].XOff || port[i].YOff != ref[i].YOff {
@@ -526,8 +548,17 @@ func triage(fe *fontEntry, c *Case, got portResult, want refResult) class {
 				}
 			}
 		}
-		if onlyMarks {
+		switch {
+		case onlyMarks && ev.Known(fMarkBaseCache):
 			add(fMarkBaseCache, fOffset)
+		case onlyMarks && ranged:
+			// skew: the backward search for the base of a mark (rewritten upstream in 2023 together
+			// with the fix for issue 4124, and ported) walks past a glyph that does not carry the
+			// lookup's mask (a user feature switched off on a range); libharfbuzz 6.0.0 stops there
+			// and attaches nothing. in-house 85fe0be4...ttf, U+0A15 U+0009 U+2069 U+0A51 with
+			// blwm=0 on [1,2): the port attaches the mark to U+0A15. Precondition: a ranged user
+			// feature and mark attachment lookups; only offsets of GDEF mark glyphs differ.
+			add(sMarkBaseMask, fOffset)
 		}
 	}
 	// finding: VORG vertical origins of a variable font are not varied (VVAR vertical-origin
